@@ -157,3 +157,61 @@ class DoChangePin(Contract):
     ensures = [carried_out]
     raises = {ADMINERR: Exc(args=[STR_]), ERR_RESULT: Exc(args=[INT_]), ERR_TIMEOUT: Exc(args=[STR_]),
               ERR_COMM: Exc(args=[STR_]), ERR_DONGLE: Exc(args=[STR_])}
+
+
+# docs/: the six documented BIP32 paths (independent of admin/pubkeys.py's own table); 0x8000002c = 44'
+H = 0x80000000
+DOCUMENTED_PATHS = {"btc": ("m/44'/0'/0'/0/0", (44 + H, 0 + H, 0 + H, 0, 0)), "rsk": ("m/44'/137'/0'/0/0", (44 + H, 137 + H, 0 + H, 0, 0)),
+                    "mst": ("m/44'/137'/1'/0/0", (44 + H, 137 + H, 1 + H, 0, 0)), "tbtc": ("m/44'/1'/0'/0/0", (44 + H, 1 + H, 0 + H, 0, 0)),
+                    "trsk": ("m/44'/1'/1'/0/0", (44 + H, 1 + H, 1 + H, 0, 0)), "tmst": ("m/44'/1'/2'/0/0", (44 + H, 1 + H, 2 + H, 0, 0))}
+
+
+@native
+def documented_indices(ip, st, name, k):
+    return DOCUMENTED_PATHS[name][1][k]
+
+
+@native
+def documented_path(ip, st, name):
+    return DOCUMENTED_PATHS[name][0]
+
+
+@native
+def uncompressed_hex_of(ip, st, device_answer_hex):
+    """hex of the uncompressed encoding of the key the device answered (ecdsa from_string / to_string: uninterpreted)"""
+    from pyvc import values as V
+    from spec.crypto_ext import p256_key, p256_str
+    from pyvc.values import to_term, as_value
+    return as_value("str", V.hexs(p256_str(p256_key(V.unhex(to_term(device_answer_hex))), tm.Str("uncompressed"))))
+
+
+@contract("admin/pubkeys.py", "do_get_pubkeys", serves=["C18"])
+class DoGetPubkeys(Contract):
+    """"the public keys written to disk are the device's keys for the six documented paths": each key is requested from
+    the device for the documented path of its name, and the JSON map that is written maps each documented path to the
+    uncompressed encoding of the key the device answered for it (json.dumps and the file write itself: assumed)"""
+    params = dict(options=OPTS(pin=ONEOF(NONE_, STR_), output_file_path=ONEOF(NONE_, STR_)))
+    exception_serves = ()
+    max_paths = 20000
+    assumptions = ["ecdsa VerifyingKey.from_string / to_string as uninterpreted functions (the curve argument is not modelled)",
+                   "json.dumps and the text-file writes of the export are assumed (spec/fs.py, spec/server_io.py)"]
+
+    def asked_for_the_documented_path(arg_key_id, path_name):
+        return (idx(arg_key_id, 0) == documented_indices(path_name, 0) and idx(arg_key_id, 1) == documented_indices(path_name, 1)
+                and idx(arg_key_id, 2) == documented_indices(path_name, 2) and idx(arg_key_id, 3) == documented_indices(path_name, 3)
+                and idx(arg_key_id, 4) == documented_indices(path_name, 4))
+    at_calls = {"get_public_key": [asked_for_the_documented_path]}
+
+    def json_map_holds_the_devices_keys(pubkeys, json_dict=None):
+        if is_none(json_dict):
+            return True
+        return (len(json_dict) == 6
+                and json_dict[documented_path("btc")] == uncompressed_hex_of(pubkeys["btc"])
+                and json_dict[documented_path("rsk")] == uncompressed_hex_of(pubkeys["rsk"])
+                and json_dict[documented_path("mst")] == uncompressed_hex_of(pubkeys["mst"])
+                and json_dict[documented_path("tbtc")] == uncompressed_hex_of(pubkeys["tbtc"])
+                and json_dict[documented_path("trsk")] == uncompressed_hex_of(pubkeys["trsk"])
+                and json_dict[documented_path("tmst")] == uncompressed_hex_of(pubkeys["tmst"]))
+    at_exit = [json_map_holds_the_devices_keys]
+    raises = {ADMINERR: Exc(args=[STR_]), ERR_RESULT: Exc(args=[INT_]), ERR_TIMEOUT: Exc(args=[STR_]),
+              ERR_COMM: Exc(args=[STR_]), ERR_DONGLE: Exc(args=[STR_])}
